@@ -24,7 +24,9 @@
        over the element ids while all tuples of one arity share the schema and name of their layout
        (struct std::TupleN).
 
-   Model-checking modules: SchemaModel_MC18.tla, SchemaModel_MC20.tla. *)
+   Model-checking modules: SchemaModel_MC18.tla, SchemaModel_MC20.tla; SchemaDerive.tla (EXTENDS this module) adds
+   the id-assignment rule of the derive macros for items without `#[aldrin(id = N)]`, SchemaDerive_MC.tla checks it
+   and enumerates derived types with their CanonId. *)
 EXTENDS Integers, Sequences, FiniteSets, TLC, SequencesExt
 
 -----------------------------------------------------------------------------
